@@ -7,6 +7,10 @@
  */
 #define _GNU_SOURCE
 #include <stdio.h>
+#include <sys/stat.h>
+#include <sys/wait.h>
+#include <fcntl.h>
+#include <signal.h>
 #include <stdlib.h>
 #include <string.h>
 #include <errno.h>
@@ -804,6 +808,25 @@ static int real_main(int argc, char **argv)
       config_setting_t *p = at(w[2]); const char *q = p ? config_setting_source_file(p) : NULL; int r;
       if (!q) printf("bad-op");
       else { cap_begin(); r = !strcmp(w[1], "file") ? config_read_file(&cfg, q) : config_read_string(&cfg, q); cap_end(); do_read(r); }
+    }
+    else if (OP("read_fifo", 2)) {
+      /* config_read_file on a path that is neither a regular file nor a directory: a FIFO fed by a child process */
+      size_t len; char *s = unhex(w[1], &len); int r; pid_t pid;
+      unlink("in.cfg");
+      if (mkfifo("in.cfg", 0600) != 0) printf("bad-op");
+      else {
+        fflush(stdout); pid = fork();
+        if (pid == 0) {
+          int fd = open("in.cfg", O_WRONLY); size_t o = 0;
+          while (fd >= 0 && o < len) { ssize_t k = write(fd, s + o, len - o); if (k <= 0) break; o += (size_t)k; }
+          if (fd >= 0) close(fd);
+          _exit(0);
+        }
+        cap_begin(); r = config_read_file(&cfg, "in.cfg"); cap_end();
+        if (pid > 0) { kill(pid, SIGKILL); waitpid(pid, NULL, 0); }
+        unlink("in.cfg"); do_read(r);
+      }
+      free(s);
     }
     else if (OP("read_file", 2)) { char *p = unhex(w[1], NULL); int r; cap_begin(); r = config_read_file(&cfg, p); cap_end(); do_read(r); free(p); }
     else if (OP("mkfile", 3)) {
